@@ -321,6 +321,15 @@ __strf_tot_corr(struct dt_dtdur_s dur)
 	return 0;
 }
 
+static __attribute__((pure)) long int
+__strf_abs_corr(struct dt_dtdur_s dur, int neg)
+{
+/* corrections to go with the magnitudes in precalc_s,
+ * a negative duration goes past its leap seconds the other way */
+	long int c = __strf_tot_corr(dur);
+	return !neg ? c : -c;
+}
+
 static __attribute__((pure)) int
 __strf_tot_days(struct dt_dtdur_s dur)
 {
@@ -466,7 +475,7 @@ static struct precalc_s {
 		us %= SECS_PER_MIN;
 	}
 	if (f.has_sec) {
-		res.S = us + __strf_tot_corr(dur);
+		res.S = us + __strf_abs_corr(dur, res.neg);
 	}
 	if (f.has_nano) {
 		if (dur.durtyp == DT_DURNANO) {
@@ -590,7 +599,7 @@ __strfdtdur(
 			/* time specs */
 		case DT_SPFL_N_TSTD:
 			if (UNLIKELY(spec.tai)) {
-				pre.S += __strf_tot_corr(dur);
+				pre.S += __strf_abs_corr(dur, pre.neg);
 			}
 			bp += ltostr(bp, eo - bp, pre.S, -1, DT_SPPAD_NONE);
 			*bp++ = 's';
@@ -598,7 +607,7 @@ __strfdtdur(
 
 		case DT_SPFL_N_SEC:
 			if (UNLIKELY(spec.tai)) {
-				pre.S += __strf_tot_corr(dur);
+				pre.S += __strf_abs_corr(dur, pre.neg);
 			}
 
 			bp += ltostr(bp, eo - bp, pre.S, 2, spec.pad);
